@@ -77,6 +77,35 @@ def fifo_lemmas(ctx: RunCtx):
 
 
 # --------------------------------------------------------------------------- bounded: both real brokers against the sequence model
+def queue_representation(ctx: RunCtx):
+    """The sequence view of MemBroker._queue (append = concatenation at the tail, popleft = removal of the head) is the behaviour of an
+    UNBOUNDED deque: every place that creates the attribute must create `deque()` without a length bound or initial content."""
+    import ast
+    out = []
+
+    def ob(name, ok, detail=""):
+        o = Obligation(name=f"{PID}/representation/{name}", kind="invariant", pc=[], goal=z3.BoolVal(bool(ok)), function="pynenc.broker.mem_broker:MemBroker")
+        o.detail = detail
+        out.append(o)
+    cls = ctx.src.klass("pynenc.broker.mem_broker", "MemBroker")
+    creations, bad = 0, []
+    for node in ast.walk(cls):
+        tgt = val = None
+        if isinstance(node, ast.Assign) and len(node.targets) == 1:
+            tgt, val = node.targets[0], node.value
+        elif isinstance(node, ast.AnnAssign) and node.value is not None:
+            tgt, val = node.target, node.value
+        if isinstance(tgt, ast.Attribute) and tgt.attr == "_queue" and isinstance(tgt.value, ast.Name) and tgt.value.id == "self":
+            creations += 1
+            plain = isinstance(val, ast.Call) and ast.unparse(val.func) in ("deque", "collections.deque") and not val.args and not val.keywords
+            if not plain:
+                bad.append(f"line {node.lineno}: {ast.unparse(val)[:60]}")
+    ob("queue-attribute-created-somewhere", creations >= 1)
+    ob("the-queue-is-always-created-as-an-empty-unbounded-deque", not bad,
+       detail="a bounded deque drops its oldest element on append: routed messages would vanish; found " + "; ".join(bad))
+    return out
+
+
 def broker_histories(ctx: RunCtx) -> BoundedResult:
     from .realapp import real_app
     thorough = ctx.tier == "thorough"
@@ -141,7 +170,7 @@ def build(ctx: RunCtx) -> Prop:
         pid=PID, title="MemBroker operations against a sequence view (append at tail, pop head, length, clear); FIFO / exactly-once as an "
                        "inductive lemma over the contracts; SQLiteBroker glue (statement order, bound parameters, BEGIN IMMEDIATE ownership)",
         level="proof", technique="contract-based deductive verification (AST->z3 sequence VCs) + lemma over contracts + bounded history enumeration for the SQL statements",
-        registry=reg, verify=verify, lemmas=[fifo_lemmas] + c08_sqlite.lemmas(reg, ctx), bounded=[broker_histories],
+        registry=reg, verify=verify, lemmas=[fifo_lemmas, queue_representation] + c08_sqlite.lemmas(reg, ctx), bounded=[broker_histories],
         assumptions=["collections.deque append/popleft/clear/len have list semantics", "SQL statement meaning is not proved (bounded stand-in only)",
                      "BEGIN IMMEDIATE gives a single writer until commit/rollback (SQLite)",
                      "the query planner serves ORDER BY created_at from the created_at index whose ties are in rowid order"],
